@@ -13,6 +13,7 @@ import (
 	"os"
 	"os/exec"
 	"path/filepath"
+	"regexp"
 	"strings"
 	"sync"
 	"syscall"
@@ -78,7 +79,34 @@ type proc struct {
 
 // start launches fabio with the given options distributed over the three
 // sources. Returns after the proxy port accepts connections.
+var inUse = regexp.MustCompile(`listen tcp (\S+): bind: address already in use`)
+
+// start launches the binary.  A port picked by the harness may have been taken by another
+// process in the meantime: such a start is repeated with that address replaced (unless it is
+// the proxy address the caller goes on to use, which makes the case inconclusive).
 func start(t interface{ Fatalf(string, ...any) }, args, env, fileLines []string, proxyAddr string) *proc {
+	for attempt := 0; ; attempt++ {
+		p, clash := startOnce(t, args, env, fileLines, proxyAddr)
+		if clash == "" {
+			return p
+		}
+		if clash == proxyAddr || attempt >= 4 {
+			t.Fatalf("VERIF-INCONCLUSIVE a port picked by the harness (%s) was taken by another process", clash)
+		}
+		fresh := freeAddr()
+		for i := range args {
+			args[i] = strings.ReplaceAll(args[i], clash, fresh)
+		}
+		for i := range env {
+			env[i] = strings.ReplaceAll(env[i], clash, fresh)
+		}
+		for i := range fileLines {
+			fileLines[i] = strings.ReplaceAll(fileLines[i], clash, fresh)
+		}
+	}
+}
+
+func startOnce(t interface{ Fatalf(string, ...any) }, args, env, fileLines []string, proxyAddr string) (*proc, string) {
 	a := append([]string{}, args...)
 	if fileLines != nil {
 		f := filepath.Join(tmpDir, fmt.Sprintf("cfg-%d.properties", time.Now().UnixNano()))
@@ -101,10 +129,13 @@ func start(t interface{ Fatalf(string, ...any) }, args, env, fileLines []string,
 		c, err := net.DialTimeout("tcp", proxyAddr, 200*time.Millisecond)
 		if err == nil {
 			c.Close()
-			return p
+			return p, ""
 		}
 		select {
 		case <-p.exited:
+			if m := inUse.FindStringSubmatch(p.out.String()); m != nil {
+				return nil, m[1]
+			}
 			t.Fatalf("fabio exited during start-up: %v\n%s", p.err, tail(p.out.String()))
 		default:
 		}
